@@ -489,7 +489,80 @@ def composition(rng, insts, tags, offgrid, depth=0, allow_mono=True,
     return ['pchain', left, child]
 
 
+def reuse_case(rng, insts, tags):
+    """The same pattern OBJECT embedded more than once: after an embedding that
+    was cut short (Pdur, stopped player), after a complete one, concurrently
+    inside one player (two children of a Ppar) or by two overlapping players.
+    Every embedding must give the timeline of a fresh equal pattern.  Grid
+    durations only (Pdur cuts are exact); stop times lie between grid points
+    (odd multiples of 1/32) so that a stop never coincides with an event."""
+    r = rng.random()
+    if r < 0.6:
+        x = ['ppar', [composition(rng, insts, tags, False, 1)
+                      for _ in range(rng.randint(2, 3))]]
+    else:
+        x = composition(rng, insts, tags, False, 0)
+    total = me.timeline(x).total
+    steps = max(1, int(total * 16))
+    cut = lambda: rng.choice([rng.randint(1, steps) / 16.0,
+                              rng.randint(1, steps) / 16.0,
+                              rng.randint(1, steps + 8) / 16.0])
+    use = ['use', 'x']
+    form = rng.choice(['cut-then-full', 'cut-then-full', 'cuts', 'pn-cut',
+                       'pn-full', 'par-twice', 'players-overlap',
+                       'players-overlap', 'stop-replay', 'stop-replay'])
+    case = {'shared': {'x': x}, 'form': form, 'offgrid': False,
+            'latency': rng.choice([0, 0, 0.05, 0.25, 0.015625]),
+            'where': rng.choice(['main', 'routine-system', 'routine-tempo']),
+            'clock': rng.choice(['default', 'system', 'tempo']),
+            'start': rng.choice([0.25, 1, 2.5, 0.0625]),
+            'proto': rng.choice([None, 'event'])}
+    if form == 'cut-then-full':
+        parts = [['pdur', cut(), use], use]
+        if rng.random() < 0.3:
+            parts.insert(0, use)
+        if rng.random() < 0.3:
+            parts.append(['pdur', cut(), use])
+        case['pattern'] = ['pseq', parts]
+    elif form == 'cuts':
+        case['pattern'] = ['pseq', [['pdur', cut(), use]
+                                    for _ in range(rng.randint(2, 4))]
+                           + ([use] if rng.random() < 0.5 else [])]
+    elif form == 'pn-cut':
+        case['pattern'] = ['pn', rng.randint(2, 3), ['pdur', cut(), use]]
+    elif form == 'pn-full':
+        case['pattern'] = ['pn', rng.randint(2, 3), use]
+    elif form == 'par-twice':
+        t = rng.choice([0.0625, 0.25, 0.5, 1])
+        other = ['pdelta', t, use] if rng.random() < 0.7 else \
+            ['pdur', cut(), use]
+        case['pattern'] = ['ppar', [use, other]]
+    elif form == 'players-overlap':
+        case['pattern'] = use
+        off = rng.choice([0.0625, 0.25, 0.5, 1, total / 2 if total else 0.25])
+        off = max(0.0625, int(off * 16) / 16.0)
+        case['plays'] = [{'at': 0.0, 'stop': None}, {'at': off, 'stop': None}]
+        if rng.random() < 0.3:
+            case['plays'].append({'at': off + rng.choice([0.0625, 0.5]),
+                                  'stop': None})
+    else:       # stop-replay
+        case['pattern'] = use if rng.random() < 0.7 else ['pdur', cut(), use]
+        stop = (2 * rng.randint(0, steps) + 1) / 32.0
+        again = stop + rng.choice([0, 1 / 32.0, 0.25, 1, total])
+        case['plays'] = [{'at': 0.0, 'stop': stop}, {'at': again, 'stop': None}]
+        if rng.random() < 0.3:
+            stop2 = again + (2 * rng.randint(0, steps) + 1) / 32.0
+            case['plays'][1]['stop'] = stop2
+            case['plays'].append({'at': stop2 + rng.choice([0, 0.5]),
+                                  'stop': None})
+    if case.get('plays'):
+        case['where'] = 'routine-system'
+    return case
+
+
 def timeline_case(rng, insts, tags):
+    if rng.random() < 0.3:
+        return reuse_case(rng, insts, tags)
     offgrid = rng.random() < 0.25
     comp = composition(rng, insts, tags, offgrid, allow_pdur=not offgrid)
     return {
